@@ -70,7 +70,7 @@ def make_obs(ctx):
                             n1, y1, chr1, ntr, nty))
     # zone maps: tzm_open + tzm_find on well-formed compiled maps with symbolic keys
     shapes = [(1,), (1, 1), (1, 1, 1), (2, 1), (1, 2)] if ctx.tier == 'quick' else \
-             [(1,), (2,), (1, 1), (1, 2), (2, 1), (1, 1, 1), (1, 2, 1), (2, 1, 1), (1, 1, 2), (1, 1, 1, 1), (1, 1, 1, 1, 1)]
+             [(1,), (2,), (1, 1), (1, 2), (2, 1), (1, 1, 1), (1, 2, 1), (2, 1, 1), (1, 1, 2), (1, 1, 1, 1)]
     for sh in shapes:
         for ql in ((1, 3, 4, 5) if ctx.tier == 'quick' else (1, 2, 3, 4, 5, 7, 8)):
             obs.append(Ob('tzm-find:%s:q%d' % ('-'.join(map(str, sh)), ql), 'C19_tzm.c', 'h_tzm_find',
@@ -82,7 +82,8 @@ def make_obs(ctx):
                           bounds={'map': '%d records with keys of %s words (bytes symbolic, sorted), zone offsets symbolic' % (len(sh), '/'.join(map(str, sh))),
                                   'lookup': 'any key of %d bytes in an object of exactly %d bytes' % (ql, ql + 1)}))
     # zone maps: any file with the magic is refused or looked up inside the image
-    for sz in ((15, 16, 24, 28, 32) if ctx.tier == 'quick' else tuple(range(12, 41))):
+    # sizes beyond 32 bytes take 6..9 minutes per query (two or more symbolic records)
+    for sz in ((15, 16, 24, 28, 32) if ctx.tier == 'quick' else tuple(range(12, 33))):
         fit = [o for o in range(4, max(sz - 16 - 8, 0) + 1, 4)]
         offs = sorted(set(fit + [0, 3, 5, max(sz - 16, 0), sz, 0x7fffff00, 0xffffffff]))
         for ho in offs:
